@@ -270,11 +270,11 @@ def getValueAtTime(
     else:
         bestTime = sortedDataTupleList[i][0]
         bestRow = sortedDataTupleList[i]
+        bestI = i
         while True:
             try:
                 dataTuple = sortedDataTupleList[i]
             except IndexError:
-                i -= 1
                 break  # Last known value is the closest one
 
             currTime = dataTuple[0]
@@ -285,12 +285,16 @@ def getValueAtTime(
             if currDiff < bestDiff:  # We're closer to the target val
                 bestTime = currTime
                 bestRow = currRow
+                bestI = i
                 if currDiff == 0:
                     break  # Can't do better than a perfect match
             elif currDiff > bestDiff:
-                i -= 1
                 break  # We've past the best value.
             i += 1
+
+        # The next search resumes at the best match (not behind rows that
+        # merely tied with it, which may be the best match for a later time)
+        i = bestI
 
     retRow = bestRow
 
